@@ -111,3 +111,27 @@ Theorem C07_structure_assembled_system_mirror_covariant :
     = sg r * rsum (6 * S ne) (fun q => assembled ne k a r (q / 6) (q mod 6) * u q).
 Proof. exact assembled_mirror. Qed.
 Print Assumptions C07_structure_assembled_system_mirror_covariant.
+
+(* ---- the element-level covariance PROVED from the element model (Real/ElementMirror.v): direction cosines of the mirrored
+   element with exchanged nodes are x' = - My x, y' = My y, z' = My z; reversing the axis of the textbook frame element is
+   the congruence with (node exchange, rotation-DOF signs); the chain LocalStiff -> Permuted -> Transform -> Transformed of
+   the mirrored beam therefore gives the exchanged / sign-changed matrices, for tube and wing-box section data alike ---- *)
+From OAS Require Import ElementMirror.
+Theorem C07_structure_element_matrices_mirror_covariant :
+  forall ne nodes E G A J Iy Iz e p q,
+    (e < ne)%nat -> (p < 12)%nat -> (q < 12)%nat -> elem_length nodes e <> 0 ->
+    beam_kloc (nodesM ne nodes) E G (revE ne A) (revE ne J) (revE ne Iy) (revE ne Iz) (ne - 1 - e) p q
+    = sg p * sg q * beam_kloc nodes E G A J Iy Iz e (sw p) (sw q).
+Proof. exact beam_elements_mirror. Qed.
+Print Assumptions C07_structure_element_matrices_mirror_covariant.
+
+(* hence, with no hypothesis on the element matrices: the assembled system of the mirrored beam maps mirrored
+   displacements to mirrored nodal forces and moments, any number of elements of non-zero length *)
+Theorem C07_structure_mirrored_beam_gives_mirrored_forces :
+  forall ne nodes E G A J Iy Iz (u : nat -> R) a r,
+    (forall e, (e < ne)%nat -> elem_length nodes e <> 0) -> (a <= ne)%nat -> (r < 6)%nat ->
+    rsum (6 * S ne) (fun q => assembled ne (beam_kloc (nodesM ne nodes) E G (revE ne A) (revE ne J) (revE ne Iy) (revE ne Iz))
+                                        (ne - a) r (q / 6) (q mod 6) * um ne u q)
+    = sg r * rsum (6 * S ne) (fun q => assembled ne (beam_kloc nodes E G A J Iy Iz) a r (q / 6) (q mod 6) * u q).
+Proof. exact beam_system_mirror. Qed.
+Print Assumptions C07_structure_mirrored_beam_gives_mirrored_forces.
